@@ -46,6 +46,9 @@ def check(ck: Checker) -> None:
     from . import round7 as _r7
 
     _r7.collect_every_entry(ck, "C18.closed")
+    from . import round9 as _r9
+
+    _r9.storage_resolved_per_entry(ck, "C18.roles")
     _objectpath(ck)
     _accessors(ck)
     for o in ck.obs:
